@@ -3,10 +3,12 @@ import json
 import checks_ns
 import checks_idm
 import checks_copy
+import checks_wrap
 
 CHECKS = {
     "C01": checks_ns.check_c01,
     "C05": checks_ns.check_c05,
+    "C09": checks_wrap.check_c09,
     "C15": checks_idm.check_c15,
     "C16": checks_copy.check_c16,
 }
